@@ -71,6 +71,8 @@ def configs(tier):
                         if N >= 2 and res == 2:
                             c["_split"] = 3
                         out.append(c)
+    for op in ("sum", "mean"):
+        out.append(dict(kind="wrapper", N=2, res=1, lim="explicit", op=op, logx=False, warm=True))
     out.append(dict(kind="wrapper", N=1, res=2, lim="degenerate", op="default", logx=False))
     out.append(dict(kind="wrapper", N=2, res=2, lim="degenerate", op="sum", logx=False))
     out.append(dict(kind="interference", _noshadow=True))     # its concrete mode is a stress run, not a path replay
@@ -219,7 +221,7 @@ def _wrapper(m, cfg):
     from osyris.core.layer import Layer
     from symx import core
     N, res, lim, op, logx = cfg["N"], cfg["res"], cfg["lim"], cfg["op"], cfg["logx"]
-    tag = f"wrapper:{lim}:{op}:{'log' if logx else 'lin'}"
+    tag = f"wrapper:{lim}:{op}:{'log' if logx else 'lin'}" + (":second-call" if cfg.get("warm") else "")
     xr = m.array("x", (N,), "float64")
     yr = m.array("y", (N,), "float64")
     if logx:
@@ -281,8 +283,13 @@ def _wrapper(m, cfg):
         import z3
         for (a, la), (b, lb) in itertools.combinations(zip(raws, logs), 2):
             core.Ctx.cur.add(z3.And((a < b) == (la < lb), (a == b) == (la == lb)))
+    def _warm():
+        # the call under check is the SECOND call given the same Layer objects: the first asked for the other operation
+        if cfg.get("warm"):
+            osyris.histogram2d(x, y, *layers, **dict(kw, operation=("mean" if kw.get("operation") == "sum" else "sum")))
     try:
         if m.symbolic:
+            _warm()
             p = osyris.histogram2d(x, y, *layers, **kw)
     except AttributeError as e:
         m.fail(f"histogram2d raises AttributeError: {e}", key=f"raises-AttributeError:wrapper:{lim}")
@@ -294,6 +301,7 @@ def _wrapper(m, cfg):
         nt = numba.get_num_threads()
         numba.set_num_threads(1)
         try:
+            _warm()
             p = osyris.histogram2d(x, y, *layers, **kw)
         except AttributeError as e:
             m.fail(f"histogram2d raises AttributeError: {e}", key=f"raises-AttributeError:wrapper:{lim}")
